@@ -288,6 +288,41 @@ def check_matrices(acc, n, ltype, levels):
                     if cs > 1e-9:
                         acc.fail("C11.colsum.zero", tag, dict(base_w, code=HEAD + f"c = {ctor}\nlevels = {levels!r}\nassert abs(np.asarray(c.get_coding_matrix(levels), dtype=float).sum(axis=0)).max() < 1e-9\n"), f"max |column sum| = {cs}")
 
+        # drop field: none for the reduced coding; for the full coding it names one of its columns, and removing that
+        # column leaves a coding that is of full rank next to an intercept. For the treatment family the drop field is
+        # the reference level, so the full coding without it IS the reduced coding (values and column names).
+        drop_src = (HEAD + f"c = {ctor}\nlevels = {levels!r}\n"
+                    "assert c.get_drop_field(levels, reduced_rank=True) is None\n"
+                    "full = c.get_coding_matrix(levels, reduced_rank=False)\nd = c.get_drop_field(levels, reduced_rank=False)\n"
+                    "assert list(full.columns).count(d) == 1, (d, list(full.columns))\nrest = full.drop(columns=[d])\n"
+                    f"assert np.linalg.matrix_rank(np.hstack([np.ones(({n}, 1)), rest.values.astype(float)])) == {n}\n")
+        if kind in ("treatment", "SAS"):
+            drop_src += ("red = c.get_coding_matrix(levels, reduced_rank=True)\n"
+                         "assert list(rest.columns) == list(red.columns) and np.array_equal(rest.values.astype(float), red.values.astype(float)), (d, list(red.columns))\n")
+        w = dict(base_w, code=drop_src)
+
+        def drop_fields():
+            return (c.get_drop_field(levels, reduced_rank=True), c.get_drop_field(levels, reduced_rank=False),
+                    c.get_coding_matrix(levels, reduced_rank=False), c.get_coding_matrix(levels, reduced_rank=True))
+
+        ok, res = call(acc, "C11.drop-field", tag, w, drop_fields)
+        if ok:
+            d_red, d_full, full_m, red_m = res
+            cols = list(full_m.columns)
+            if d_red is not None:
+                acc.fail("C11.drop-field", tag + ":reduced-not-none", w, f"reduced coding reports drop field {d_red!r}")
+            elif cols.count(d_full) != 1:
+                acc.fail("C11.drop-field", tag + ":not-a-column", w, f"drop field {d_full!r} is not one of the full coding's columns {cols}")
+            else:
+                rest = full_m.drop(columns=[d_full])
+                if frank(np.hstack([np.ones((n, 1)), dense(rest).reshape(n, n - 1)]).tolist(), n) != n:
+                    acc.fail("C11.drop-field", tag + ":rank", w, f"[1 | full coding without {d_full!r}] is rank deficient")
+                elif kind in ("treatment", "SAS") and got is not None and (
+                    list(rest.columns) != list(red_m.columns) or not close(dense(rest).reshape(n, n - 1), dense(red_m).reshape(n, n - 1), 0.0)
+                ):
+                    acc.fail("C11.drop-field", tag + ":full-minus-drop-is-not-reduced", w,
+                             f"drop field {d_full!r}: full coding without it has columns {list(rest.columns)}, reduced coding {list(red_m.columns)}")
+
         # full coding == identity
         eye = np.eye(n)
         w = dict(base_w, code=repro(ctor, levels, "c.get_coding_matrix(levels, reduced_rank=False)", eye, 0.0))
@@ -534,7 +569,7 @@ def run_bounded(ctx):
     for part, name, exhaustive, rule, bound in (
         ("matrix", "contrast-matrices-n1-12", True,
          "one case per (contrast + options, n, label type): reduced coding shape/closed form/row labels/[1|C] rank (exact, on the "
-         "returned floats)/column sums, full coding, coefficient matrix vs exact inverse, sparse forms; every case is non-trivial",
+         "returned floats)/column sums, drop field (none when reduced; a column of the full coding whose removal keeps [1|C] of full rank; treatment family: full coding without it == reduced coding), full coding, coefficient matrix vs exact inverse, sparse forms; every case is non-trivial",
          "n=1..12; " + options),
         ("encode", "contrast-encoding-n1-12", False,
          "one case per (contrast + options, data vector kind, levels mode, label type, n, reduced/full, output, container) for "
